@@ -1,60 +1,67 @@
 /-
-  C16: the JSON printer/parser round trip for the model in `PypyrModel/Codec.lean` (`Codec.Json`).
+  C16: the JSON printer/parser round trip for the model in `PypyrModel/Codec.lean` (`Codec.Json`),
+  for every setting `o : Opts` of `indent` (`some n`, `none`) and `ensure_ascii`.
 
-    parse_print : isJson false d = true → parse (print d) = .ok d []
-    isJson_mono : isJson false d = true → isJson true d = true
+    parse_print_coerce : isJsonK true d = true → parse (print o d) = .ok (coerceKeys d) []
+    coerceKeys_id      : strKeys d = true → coerceKeys d = d
+    parse_print        : isJsonK true d = true → strKeys d = true → parse (print o d) = .ok d []
+    isJsonK_mono       : isJsonK true d = true → isJsonK false d = true
 
-  `isJson flt`: objects with pairwise distinct string keys, arrays, strings, ints, bools, null, and
-  floats iff `flt`. The round trip is proved on the float-free domain (`flt = false`); the codec's
-  encoder accepts the float-allowed one (`flt = true`), hence `isJson_mono`.
+  `isJsonK strict`: objects with keys str/int/float/bool/None (duplicates allowed), arrays, strings,
+  ints, floats, bools, null; `strict`: every float in `fltOk` (canonical, ≤ 15 digits, no exponent form).
+  `coerceKeys`: keys as `json.dump` writes them, mappings rebuilt by `rebuildDict` (= `dict(pairs)`).
+  `strKeys`: all keys strings, pairwise distinct.
 
   Shape of the proof: the generalised statement
-    `pValue fuel (pr lvl d ++ rest) = .ok d rest`
+    `pValue fuel (pr o lvl d ++ rest) = .ok (coerceKeys d) rest`
   for every nesting level, every continuation `rest` that does not continue a number (`okTail`), and
   every fuel larger than the length of the printed text (which is what `parse` supplies), by mutual
   structural recursion mirroring the printer's `pr / prArr / prElems / prObj / prMembers`.
-  Lexical level (strings, integers, indentation): `Props/Lemmas/C16_JsonLex.lean`.
+  Lexical level: `C16_JsonLex.lean` (strings, integers, indentation), `C16_JsonFloat.lean` (floats).
 -/
-import Props.Lemmas.C16_JsonLex
+import Props.Lemmas.C16_JsonFloat
 import Props.Lemmas.C16_Doc
 
 namespace Pypyr.Codec.Json
 
-/-! ### The float-free domain is inside the float-allowed one -/
+/-! ### The strict domain is inside the lenient one -/
+
+theorem isKey_mono (k : Val) (h : isKey true k = true) : isKey false k = true := by
+  cases k <;> simp_all [isKey]
 
 mutual
-theorem isJson_mono : ∀ (d : Val), isJson false d = true → isJson true d = true
-  | .none, _ => by simp [isJson]
-  | .bool _, _ => by simp [isJson]
-  | .int _, _ => by simp [isJson]
-  | .flt _ _, _ => by simp [isJson]
-  | .str _, _ => by simp [isJson]
+theorem isJsonK_mono : ∀ (d : Val), isJsonK true d = true → isJsonK false d = true
+  | .none, _ => by simp [isJsonK]
+  | .bool _, _ => by simp [isJsonK]
+  | .int _, _ => by simp [isJsonK]
+  | .flt _ _, _ => by simp [isJsonK]
+  | .str _, _ => by simp [isJsonK]
   | .list xs, h => by
-    simp only [isJson] at h ⊢
-    exact isJsonList_mono xs h
+    simp only [isJsonK] at h ⊢
+    exact isJsonKList_mono xs h
   | .dict kvs, h => by
-    simp only [isJson] at h ⊢
-    exact isJsonPairs_mono kvs h
-  | .bytes _, h => by simp [isJson] at h
-  | .tuple _, h => by simp [isJson] at h
-  | .set _, h => by simp [isJson] at h
-  | .sic _, h => by simp [isJson] at h
-  | .py _, h => by simp [isJson] at h
-  | .jsonify _, h => by simp [isJson] at h
-  | .obj _, h => by simp [isJson] at h
-theorem isJsonList_mono : ∀ (xs : List Val), isJsonList false xs = true → isJsonList true xs = true
-  | [], _ => by simp [isJsonList]
+    simp only [isJsonK] at h ⊢
+    exact isJsonKPairs_mono kvs h
+  | .bytes _, h => by simp [isJsonK] at h
+  | .tuple _, h => by simp [isJsonK] at h
+  | .set _, h => by simp [isJsonK] at h
+  | .sic _, h => by simp [isJsonK] at h
+  | .py _, h => by simp [isJsonK] at h
+  | .jsonify _, h => by simp [isJsonK] at h
+  | .obj _, h => by simp [isJsonK] at h
+theorem isJsonKList_mono : ∀ (xs : List Val), isJsonKList true xs = true → isJsonKList false xs = true
+  | [], _ => by simp [isJsonKList]
   | x :: xs, h => by
-    simp only [isJsonList, Bool.and_eq_true] at h ⊢
-    exact ⟨isJson_mono x h.1, isJsonList_mono xs h.2⟩
-theorem isJsonPairs_mono : ∀ (kvs : List (Val × Val)), isJsonPairs false kvs = true → isJsonPairs true kvs = true
-  | [], _ => by simp [isJsonPairs]
+    simp only [isJsonKList, Bool.and_eq_true] at h ⊢
+    exact ⟨isJsonK_mono x h.1, isJsonKList_mono xs h.2⟩
+theorem isJsonKPairs_mono : ∀ (kvs : List (Val × Val)), isJsonKPairs true kvs = true → isJsonKPairs false kvs = true
+  | [], _ => by simp [isJsonKPairs]
   | (k, v) :: rest, h => by
-    simp only [isJsonPairs, Bool.and_eq_true] at h ⊢
-    exact ⟨⟨h.1.1, isJson_mono v h.1.2⟩, isJsonPairs_mono rest h.2⟩
+    simp only [isJsonKPairs, Bool.and_eq_true] at h ⊢
+    exact ⟨⟨isKey_mono k h.1.1, isJsonK_mono v h.1.2⟩, isJsonKPairs_mono rest h.2⟩
 end
 
-/-! ### Distinct keys: `rebuildDict` (Python's `dict(pairs)`) gives the pairs back -/
+/-! ### String keys, pairwise distinct: `coerceKeys` is the identity -/
 
 theorem keyIn_false (k : Val) : ∀ (kvs : List (Val × Val)), keyIn k kvs = false → k ∉ keysOf kvs
   | [], _ => by simp [keysOf]
@@ -63,13 +70,49 @@ theorem keyIn_false (k : Val) : ∀ (kvs : List (Val × Val)), keyIn k kvs = fal
     simp only [keysOf, List.map_cons, List.mem_cons, not_or]
     exact ⟨fun e => h.1 e.symm, keyIn_false k rest h.2⟩
 
-theorem isJsonPairs_nodup (flt : Bool) : ∀ (kvs : List (Val × Val)), isJsonPairs flt kvs = true →
-    (keysOf kvs).Nodup
+theorem strKeysPairs_nodup : ∀ (kvs : List (Val × Val)), strKeysPairs kvs = true → (keysOf kvs).Nodup
   | [], _ => by simp [keysOf]
   | (k, v) :: rest, h => by
-    simp only [isJsonPairs, Bool.and_eq_true, Bool.not_eq_true'] at h
+    simp only [strKeysPairs, Bool.and_eq_true, Bool.not_eq_true'] at h
     simp only [keysOf, List.map_cons, List.nodup_cons]
-    exact ⟨keyIn_false k rest h.1.1.2, isJsonPairs_nodup flt rest h.2⟩
+    exact ⟨keyIn_false k rest h.1.1.2, strKeysPairs_nodup rest h.2⟩
+
+theorem isStr_eq (k : Val) (h : isStr k = true) : ∃ s, k = .str s := by
+  cases k <;> simp [isStr] at h
+  exact ⟨_, rfl⟩
+
+mutual
+theorem coerceKeys_id : ∀ (d : Val), strKeys d = true → coerceKeys d = d
+  | .list xs, h => by
+    simp only [strKeys] at h
+    simp only [coerceKeys, coerceList_id xs h]
+  | .dict kvs, h => by
+    simp only [strKeys] at h
+    simp only [coerceKeys, coercePairs_id kvs h, rebuildDict_distinct kvs (strKeysPairs_nodup kvs h)]
+  | .none, _ => rfl
+  | .bool _, _ => rfl
+  | .int _, _ => rfl
+  | .flt _ _, _ => rfl
+  | .str _, _ => rfl
+  | .bytes _, _ => rfl
+  | .tuple _, _ => rfl
+  | .set _, _ => rfl
+  | .sic _, _ => rfl
+  | .py _, _ => rfl
+  | .jsonify _, _ => rfl
+  | .obj _, _ => rfl
+theorem coerceList_id : ∀ (xs : List Val), strKeysList xs = true → coerceList xs = xs
+  | [], _ => rfl
+  | x :: xs, h => by
+    simp only [strKeysList, Bool.and_eq_true] at h
+    simp only [coerceList, coerceKeys_id x h.1, coerceList_id xs h.2]
+theorem coercePairs_id : ∀ (kvs : List (Val × Val)), strKeysPairs kvs = true → coercePairs kvs = kvs
+  | [], _ => rfl
+  | (k, v) :: rest, h => by
+    simp only [strKeysPairs, Bool.and_eq_true] at h
+    obtain ⟨s, rfl⟩ := isStr_eq k h.1.1.1
+    simp only [coercePairs, keyStr, Option.getD_some, coerceKeys_id v h.1.2, coercePairs_id rest h.2]
+end
 
 /-! ### First characters -/
 
@@ -90,35 +133,58 @@ theorem prInt_head (i : Int) : ∃ c r, prInt i = c :: r ∧ isWs c = false ∧ 
   · exact ⟨'-', _, rfl, by decide, by decide⟩
   · exact ⟨c, ds, he, isDigit_not_ws c hc, isDigit_ne c ']' hc (by decide)⟩
 
+theorem prFlt_head (n : Int) (k : Nat) : ∃ c r, prFlt n k = c :: r ∧ isWs c = false ∧ c ≠ ']' := by
+  obtain ⟨c, ds, he, hc⟩ := natDigits_head (n.natAbs / 2 ^ k)
+  unfold prFlt
+  simp only []
+  split
+  · exact ⟨'-', _, rfl, by decide, by decide⟩
+  · rw [he]
+    exact ⟨c, _, rfl, isDigit_not_ws c hc, isDigit_ne c ']' hc (by decide)⟩
+
 /-- A printed value starts with a character that is neither whitespace nor `]`. -/
-theorem pr_head (lvl : Nat) (d : Val) (h : isJson false d = true) :
-    ∃ c r, pr lvl d = c :: r ∧ isWs c = false ∧ c ≠ ']' := by
+theorem pr_head (o : Opts) (lvl : Nat) (d : Val) (h : isJsonK true d = true) :
+    ∃ c r, pr o lvl d = c :: r ∧ isWs c = false ∧ c ≠ ']' := by
   cases d with
   | none => exact ⟨_, _, rfl, by decide, by decide⟩
   | bool b => cases b <;> exact ⟨_, _, rfl, by decide, by decide⟩
   | int i => simpa [pr] using prInt_head i
-  | flt n k => simp [isJson] at h
+  | flt n k => simpa [pr] using prFlt_head n k
   | str s => exact ⟨'"', _, rfl, by decide, by decide⟩
   | list xs => cases xs <;> exact ⟨'[', _, rfl, by decide, by decide⟩
   | dict kvs =>
     cases kvs with
     | nil => exact ⟨'{', _, rfl, by decide, by decide⟩
     | cons kv rest => obtain ⟨k, v⟩ := kv; exact ⟨'{', _, rfl, by decide, by decide⟩
-  | bytes _ => simp [isJson] at h
-  | tuple _ => simp [isJson] at h
-  | set _ => simp [isJson] at h
-  | sic _ => simp [isJson] at h
-  | py _ => simp [isJson] at h
-  | jsonify _ => simp [isJson] at h
-  | obj _ => simp [isJson] at h
+  | bytes _ => simp [isJsonK] at h
+  | tuple _ => simp [isJsonK] at h
+  | set _ => simp [isJsonK] at h
+  | sic _ => simp [isJsonK] at h
+  | py _ => simp [isJsonK] at h
+  | jsonify _ => simp [isJsonK] at h
+  | obj _ => simp [isJsonK] at h
 
-theorem okTail_prElems (lvl : Nat) (xs : List Val) (rest : List Char) : okTail (prElems lvl xs ++ rest) := by
-  cases xs <;> simp [prElems, indentOf, okTail]
+theorem okTail_nl (o : Opts) (lvl : Nat) (c : Char) (rest : List Char)
+    (hc : c.isDigit = false ∧ c ≠ '.' ∧ c ≠ 'e' ∧ c ≠ 'E') : okTail (nl o lvl ++ c :: rest) := by
+  unfold nl
+  split
+  · simpa [okTail] using hc
+  · simp [okTail]
 
-theorem okTail_prMembers (lvl : Nat) (kvs : List (Val × Val)) (rest : List Char) :
-    okTail (prMembers lvl kvs ++ rest) := by
+theorem okTail_prElems (o : Opts) (lvl : Nat) (xs : List Val) (rest : List Char) :
+    okTail (prElems o lvl xs ++ rest) := by
+  cases xs with
+  | nil =>
+    simp only [prElems, List.append_assoc, List.cons_append, List.nil_append]
+    exact okTail_nl o lvl ']' rest (by decide)
+  | cons x xs => simp [prElems, okTail]
+
+theorem okTail_prMembers (o : Opts) (lvl : Nat) (kvs : List (Val × Val)) (rest : List Char) :
+    okTail (prMembers o lvl kvs ++ rest) := by
   cases kvs with
-  | nil => simp [prMembers, indentOf, okTail]
+  | nil =>
+    simp only [prMembers, List.append_assoc, List.cons_append, List.nil_append]
+    exact okTail_nl o lvl '}' rest (by decide)
   | cons kv r => obtain ⟨k, v⟩ := kv; simp [prMembers, okTail]
 
 /-! ### One step of the parser on printed text (non-recursive; the recursive results are hypotheses) -/
@@ -135,8 +201,8 @@ theorem pValue_false (f : Nat) (rest : List Char) :
     pValue (f + 1) (['f', 'a', 'l', 's', 'e'] ++ rest) = .ok (.bool false) rest := by
   simp [pValue, pLit, List.isPrefixOf]
 
-theorem pValue_str (f : Nat) (s : String) (rest : List Char) :
-    pValue (f + 1) (prStr s ++ rest) = .ok (.str s) rest := by
+theorem pValue_str (f : Nat) (a : Bool) (s : String) (rest : List Char) :
+    pValue (f + 1) (prStr a s ++ rest) = .ok (.str s) rest := by
   simp [pValue, prStr, pStr_escStr, String.ofList_toList]
 
 theorem pValue_int (f : Nat) (i : Int) (rest : List Char) (ht : okTail rest) :
@@ -151,106 +217,137 @@ theorem pValue_int (f : Nat) (i : Int) (rest : List Char) (ht : okTail rest) :
     rw [he] at h1
     simp only [List.cons_append] at h1
     have hv : -(i.natAbs : Int) = i := by omega
-    simp [pValue, he, List.isPrefixOf, hI.symm, h1, hv]
+    simp [pValue, he, List.isPrefixOf, hI.symm, h1, sgn, hv]
   · next hpos =>
     have h1 := hnum false
     rw [he] at h1 ⊢
     simp only [List.cons_append] at h1 ⊢
     have hv : (i.natAbs : Int) = i := by omega
-    simp [pValue, hc, h1, hv]
+    simp [pValue, hc, h1, sgn, hv]
 
-theorem pValue_arr_nil (f lvl : Nat) (rest : List Char) :
-    pValue (f + 1) (prArr lvl [] ++ rest) = .ok (.list []) rest := by
+theorem pValue_flt (f : Nat) (n : Int) (k : Nat) (rest : List Char) (h : fltOk n k = true)
+    (ht : okTail rest) : pValue (f + 1) (prFlt n k ++ rest) = .ok (.flt n k) rest := by
+  obtain ⟨c, r, hc, hshape, hnum⟩ := pNumber_prFlt n k rest h ht
+  rw [hshape]
+  by_cases hn : n < 0
+  · have hI : c ≠ 'I' := isDigit_ne c 'I' hc (by decide)
+    simp only [hn, decide_true] at hnum
+    simp only [List.cons_append] at hnum
+    simp [pValue, hn, List.isPrefixOf, hI.symm, hnum]
+  · simp only [hn, decide_false] at hnum
+    simp only [List.cons_append] at hnum
+    simp [pValue, hn, hc, hnum]
+
+theorem pValue_arr_nil (f : Nat) (o : Opts) (lvl : Nat) (rest : List Char) :
+    pValue (f + 1) (prArr o lvl [] ++ rest) = .ok (.list []) rest := by
   simp [pValue, prArr, skipWs, isWs]
 
-theorem pValue_arr_cons (f lvl : Nat) (x : Val) (xs : List Val) (rest : List Char)
-    (hx : ∃ c r, pr (lvl + 1) x = c :: r ∧ isWs c = false ∧ c ≠ ']')
-    (h1 : pValue f (pr (lvl + 1) x ++ (prElems lvl xs ++ rest)) = .ok x (prElems lvl xs ++ rest))
-    (h2 : pElems f (prElems lvl xs ++ rest) = .ok xs rest) :
-    pValue (f + 1) (prArr lvl (x :: xs) ++ rest) = .ok (.list (x :: xs)) rest := by
+theorem pValue_arr_cons (f : Nat) (o : Opts) (lvl : Nat) (x x' : Val) (xs : List Val) (xs' : List Val)
+    (rest : List Char)
+    (hx : ∃ c r, pr o (lvl + 1) x = c :: r ∧ isWs c = false ∧ c ≠ ']')
+    (h1 : pValue f (pr o (lvl + 1) x ++ (prElems o lvl xs ++ rest)) = .ok x' (prElems o lvl xs ++ rest))
+    (h2 : pElems f (prElems o lvl xs ++ rest) = .ok xs' rest) :
+    pValue (f + 1) (prArr o lvl (x :: xs) ++ rest) = .ok (.list (x' :: xs')) rest := by
   obtain ⟨c, r, he, hw, hb⟩ := hx
-  have hs : skipWs (indentOf (lvl + 1) ++ (pr (lvl + 1) x ++ (prElems lvl xs ++ rest)))
-      = c :: (r ++ (prElems lvl xs ++ rest)) := by
-    rw [skipWs_indentOf, he]
+  have hs : skipWs (nl o (lvl + 1) ++ (pr o (lvl + 1) x ++ (prElems o lvl xs ++ rest)))
+      = c :: (r ++ (prElems o lvl xs ++ rest)) := by
+    rw [skipWs_nl, he]
     simp [skipWs, hw]
-  have h1' : pValue f (c :: (r ++ (prElems lvl xs ++ rest))) = .ok x (prElems lvl xs ++ rest) := by
+  have h1' : pValue f (c :: (r ++ (prElems o lvl xs ++ rest))) = .ok x' (prElems o lvl xs ++ rest) := by
     rw [← h1, he]; rfl
   simp only [prArr, List.cons_append]
   simp [pValue, hs, hb, h1', h2]
 
-theorem pElems_nil (f lvl : Nat) (rest : List Char) :
-    pElems (f + 1) (prElems lvl [] ++ rest) = .ok [] rest := by
-  simp only [prElems, List.append_assoc, pElems, skipWs_indentOf]
+theorem pElems_nil (f : Nat) (o : Opts) (lvl : Nat) (rest : List Char) :
+    pElems (f + 1) (prElems o lvl [] ++ rest) = .ok [] rest := by
+  simp only [prElems, List.append_assoc, pElems, skipWs_nl]
   simp [skipWs, isWs]
 
-theorem pElems_cons (f lvl : Nat) (x : Val) (xs : List Val) (rest : List Char)
-    (hx : ∃ c r, pr (lvl + 1) x = c :: r ∧ isWs c = false ∧ c ≠ ']')
-    (h1 : pValue f (pr (lvl + 1) x ++ (prElems lvl xs ++ rest)) = .ok x (prElems lvl xs ++ rest))
-    (h2 : pElems f (prElems lvl xs ++ rest) = .ok xs rest) :
-    pElems (f + 1) (prElems lvl (x :: xs) ++ rest) = .ok (x :: xs) rest := by
+theorem pElems_cons (f : Nat) (o : Opts) (lvl : Nat) (x x' : Val) (xs xs' : List Val) (rest : List Char)
+    (hx : ∃ c r, pr o (lvl + 1) x = c :: r ∧ isWs c = false ∧ c ≠ ']')
+    (h1 : pValue f (pr o (lvl + 1) x ++ (prElems o lvl xs ++ rest)) = .ok x' (prElems o lvl xs ++ rest))
+    (h2 : pElems f (prElems o lvl xs ++ rest) = .ok xs' rest) :
+    pElems (f + 1) (prElems o lvl (x :: xs) ++ rest) = .ok (x' :: xs') rest := by
   obtain ⟨c, r, he, hw, _⟩ := hx
-  have hs : skipWs (indentOf (lvl + 1) ++ (pr (lvl + 1) x ++ (prElems lvl xs ++ rest)))
-      = pr (lvl + 1) x ++ (prElems lvl xs ++ rest) := by
-    rw [skipWs_indentOf, he]
+  have hs : skipWs (sep o (lvl + 1) ++ (pr o (lvl + 1) x ++ (prElems o lvl xs ++ rest)))
+      = pr o (lvl + 1) x ++ (prElems o lvl xs ++ rest) := by
+    rw [skipWs_sep, he]
     simp [skipWs, hw]
   simp only [prElems, List.cons_append, pElems]
   simp [skipWs, isWs, hs, h1, h2]
 
-theorem pValue_obj_nil (f lvl : Nat) (rest : List Char) :
-    pValue (f + 1) (prObj lvl [] ++ rest) = .ok (.dict []) rest := by
+theorem pValue_obj_nil (f : Nat) (o : Opts) (lvl : Nat) (rest : List Char) :
+    pValue (f + 1) (prObj o lvl [] ++ rest) = .ok (.dict []) rest := by
   simp [pValue, prObj, skipWs, isWs]
 
 /-- The text of one member after the opening quote of its key, followed by the remaining members. -/
-def memberText (lvl : Nat) (s : String) (v : Val) (kvs : List (Val × Val)) (rest : List Char) : List Char :=
-  escStr s.toList ++ '"' :: ':' :: ' ' :: (pr (lvl + 1) v ++ (prMembers lvl kvs ++ rest))
+def memberText (o : Opts) (lvl : Nat) (s : String) (v : Val) (kvs : List (Val × Val)) (rest : List Char) :
+    List Char :=
+  escStr o.ascii s.toList ++ '"' :: ':' :: ' ' :: (pr o (lvl + 1) v ++ (prMembers o lvl kvs ++ rest))
 
-theorem pMember_step (f lvl : Nat) (s : String) (v : Val) (kvs : List (Val × Val)) (rest : List Char)
-    (hv : ∃ c r, pr (lvl + 1) v = c :: r ∧ isWs c = false ∧ c ≠ ']')
-    (h1 : pValue f (pr (lvl + 1) v ++ (prMembers lvl kvs ++ rest)) = .ok v (prMembers lvl kvs ++ rest))
-    (h2 : pMembers f (prMembers lvl kvs ++ rest) = .ok kvs rest) :
-    pMember (f + 1) (memberText lvl s v kvs rest) = .ok ((.str s, v) :: kvs) rest := by
+theorem pMember_step (f : Nat) (o : Opts) (lvl : Nat) (s : String) (v v' : Val) (kvs kvs' : List (Val × Val))
+    (rest : List Char)
+    (hv : ∃ c r, pr o (lvl + 1) v = c :: r ∧ isWs c = false ∧ c ≠ ']')
+    (h1 : pValue f (pr o (lvl + 1) v ++ (prMembers o lvl kvs ++ rest)) = .ok v' (prMembers o lvl kvs ++ rest))
+    (h2 : pMembers f (prMembers o lvl kvs ++ rest) = .ok kvs' rest) :
+    pMember (f + 1) (memberText o lvl s v kvs rest) = .ok ((.str s, v') :: kvs') rest := by
   obtain ⟨c, r, he, hw, _⟩ := hv
-  have hs : skipWs (pr (lvl + 1) v ++ (prMembers lvl kvs ++ rest))
-      = pr (lvl + 1) v ++ (prMembers lvl kvs ++ rest) := by
+  have hs : skipWs (pr o (lvl + 1) v ++ (prMembers o lvl kvs ++ rest))
+      = pr o (lvl + 1) v ++ (prMembers o lvl kvs ++ rest) := by
     rw [he]; simp [skipWs, hw]
   simp only [memberText, pMember, pStr_escStr]
   simp [skipWs, isWs, hs, h1, h2, String.ofList_toList]
 
-theorem pValue_obj_cons (f lvl : Nat) (s : String) (v : Val) (kvs : List (Val × Val)) (rest : List Char)
-    (hm : pMember f (memberText lvl s v kvs rest) = .ok ((.str s, v) :: kvs) rest)
-    (hnd : (keysOf ((.str s, v) :: kvs)).Nodup) :
-    pValue (f + 1) (prObj lvl ((.str s, v) :: kvs) ++ rest) = .ok (.dict ((.str s, v) :: kvs)) rest := by
-  have hs : skipWs (indentOf (lvl + 1) ++ (prKey (.str s) ++ ':' :: ' ' :: (pr (lvl + 1) v ++
-      (prMembers lvl kvs ++ rest)))) = '"' :: memberText lvl s v kvs rest := by
-    rw [skipWs_indentOf]
-    simp [prKey, prStr, memberText, skipWs, isWs]
-  simp only [prObj, List.cons_append]
-  simp [pValue, hs, hm, rebuildDict_distinct _ hnd]
+/-- A key `json.dump` accepts is written as the string literal of `keyStr`. -/
+theorem isKey_keyStr (strict : Bool) (k : Val) (h : isKey strict k = true) : ∃ s, keyStr k = some s := by
+  cases k with
+  | bool b => cases b <;> exact ⟨_, rfl⟩
+  | none => exact ⟨_, rfl⟩
+  | int i => exact ⟨_, rfl⟩
+  | flt n j => exact ⟨_, rfl⟩
+  | str s => exact ⟨_, rfl⟩
+  | bytes _ => simp [isKey] at h
+  | tuple _ => simp [isKey] at h
+  | set _ => simp [isKey] at h
+  | list _ => simp [isKey] at h
+  | dict _ => simp [isKey] at h
+  | sic _ => simp [isKey] at h
+  | py _ => simp [isKey] at h
+  | jsonify _ => simp [isKey] at h
+  | obj _ => simp [isKey] at h
 
-theorem pMembers_nil (f lvl : Nat) (rest : List Char) :
-    pMembers (f + 1) (prMembers lvl [] ++ rest) = .ok [] rest := by
-  simp only [prMembers, List.append_assoc, pMembers, skipWs_indentOf]
+theorem pValue_obj_cons (f : Nat) (o : Opts) (lvl : Nat) (k : Val) (s : String) (v : Val)
+    (kvs pairs : List (Val × Val)) (rest : List Char) (hk : keyStr k = some s)
+    (hm : pMember f (memberText o lvl s v kvs rest) = .ok pairs rest) :
+    pValue (f + 1) (prObj o lvl ((k, v) :: kvs) ++ rest) = .ok (.dict (rebuildDict pairs)) rest := by
+  have hs : skipWs (nl o (lvl + 1) ++ (prKey o k ++ ':' :: ' ' :: (pr o (lvl + 1) v ++
+      (prMembers o lvl kvs ++ rest)))) = '"' :: memberText o lvl s v kvs rest := by
+    rw [skipWs_nl]
+    simp [prKey, hk, prStr, memberText, skipWs, isWs]
+  simp only [prObj, List.cons_append]
+  simp [pValue, hs, hm]
+
+theorem pMembers_nil (f : Nat) (o : Opts) (lvl : Nat) (rest : List Char) :
+    pMembers (f + 1) (prMembers o lvl [] ++ rest) = .ok [] rest := by
+  simp only [prMembers, List.append_assoc, pMembers, skipWs_nl]
   simp [skipWs, isWs]
 
-theorem pMembers_cons (f lvl : Nat) (s : String) (v : Val) (kvs : List (Val × Val)) (rest : List Char)
-    (hm : pMember f (memberText lvl s v kvs rest) = .ok ((.str s, v) :: kvs) rest) :
-    pMembers (f + 1) (prMembers lvl ((.str s, v) :: kvs) ++ rest) = .ok ((.str s, v) :: kvs) rest := by
-  have hs : skipWs (indentOf (lvl + 1) ++ (prKey (.str s) ++ ':' :: ' ' :: (pr (lvl + 1) v ++
-      (prMembers lvl kvs ++ rest)))) = '"' :: memberText lvl s v kvs rest := by
-    rw [skipWs_indentOf]
-    simp [prKey, prStr, memberText, skipWs, isWs]
+theorem pMembers_cons (f : Nat) (o : Opts) (lvl : Nat) (k : Val) (s : String) (v : Val)
+    (kvs pairs : List (Val × Val)) (rest : List Char) (hk : keyStr k = some s)
+    (hm : pMember f (memberText o lvl s v kvs rest) = .ok pairs rest) :
+    pMembers (f + 1) (prMembers o lvl ((k, v) :: kvs) ++ rest) = .ok pairs rest := by
+  have hs : skipWs (sep o (lvl + 1) ++ (prKey o k ++ ':' :: ' ' :: (pr o (lvl + 1) v ++
+      (prMembers o lvl kvs ++ rest)))) = '"' :: memberText o lvl s v kvs rest := by
+    rw [skipWs_sep]
+    simp [prKey, hk, prStr, memberText, skipWs, isWs]
   simp only [prMembers, List.cons_append, pMembers]
   simp [skipWs, isWs, hs, hm]
 
 /-! ### The generalised round trip, by mutual structural recursion over the document -/
 
-theorem isStr_eq (k : Val) (h : isStr k = true) : ∃ s, k = .str s := by
-  cases k <;> simp [isStr] at h
-  exact ⟨_, rfl⟩
-
 mutual
-theorem pValue_pr : ∀ (d : Val) (lvl fuel : Nat) (rest : List Char), isJson false d = true →
-    (pr lvl d).length < fuel → okTail rest → pValue fuel (pr lvl d ++ rest) = .ok d rest
+theorem pValue_pr (o : Opts) : ∀ (d : Val) (lvl fuel : Nat) (rest : List Char), isJsonK true d = true →
+    (pr o lvl d).length < fuel → okTail rest → pValue fuel (pr o lvl d ++ rest) = .ok (coerceKeys d) rest
   | .none, lvl, fuel, rest, _, hf, _ => by
     obtain ⟨f, rfl⟩ : ∃ f, fuel = f + 1 := ⟨fuel - 1, by omega⟩
     exact pValue_null f rest
@@ -263,92 +360,103 @@ theorem pValue_pr : ∀ (d : Val) (lvl fuel : Nat) (rest : List Char), isJson fa
   | .int i, lvl, fuel, rest, _, hf, ht => by
     obtain ⟨f, rfl⟩ : ∃ f, fuel = f + 1 := ⟨fuel - 1, by omega⟩
     exact pValue_int f i rest ht
+  | .flt n k, lvl, fuel, rest, h, hf, ht => by
+    obtain ⟨f, rfl⟩ : ∃ f, fuel = f + 1 := ⟨fuel - 1, by omega⟩
+    simp only [isJsonK, Bool.not_true, Bool.false_or] at h
+    exact pValue_flt f n k rest h ht
   | .str s, lvl, fuel, rest, _, hf, _ => by
     obtain ⟨f, rfl⟩ : ∃ f, fuel = f + 1 := ⟨fuel - 1, by omega⟩
-    exact pValue_str f s rest
+    exact pValue_str f o.ascii s rest
   | .list xs, lvl, fuel, rest, h, hf, _ => by
-    simp only [isJson] at h
+    simp only [isJsonK] at h
     simp only [pr] at hf ⊢
-    exact pArr_pr xs lvl fuel rest h hf
+    exact pArr_pr o xs lvl fuel rest h hf
   | .dict kvs, lvl, fuel, rest, h, hf, _ => by
-    simp only [isJson] at h
+    simp only [isJsonK] at h
     simp only [pr] at hf ⊢
-    exact pObj_pr kvs lvl fuel rest h hf
-  | .flt _ _, _, _, _, h, _, _ => by simp [isJson] at h
-  | .bytes _, _, _, _, h, _, _ => by simp [isJson] at h
-  | .tuple _, _, _, _, h, _, _ => by simp [isJson] at h
-  | .set _, _, _, _, h, _, _ => by simp [isJson] at h
-  | .sic _, _, _, _, h, _, _ => by simp [isJson] at h
-  | .py _, _, _, _, h, _, _ => by simp [isJson] at h
-  | .jsonify _, _, _, _, h, _, _ => by simp [isJson] at h
-  | .obj _, _, _, _, h, _, _ => by simp [isJson] at h
-theorem pArr_pr : ∀ (xs : List Val) (lvl fuel : Nat) (rest : List Char), isJsonList false xs = true →
-    (prArr lvl xs).length < fuel → pValue fuel (prArr lvl xs ++ rest) = .ok (.list xs) rest
+    exact pObj_pr o kvs lvl fuel rest h hf
+  | .bytes _, _, _, _, h, _, _ => by simp [isJsonK] at h
+  | .tuple _, _, _, _, h, _, _ => by simp [isJsonK] at h
+  | .set _, _, _, _, h, _, _ => by simp [isJsonK] at h
+  | .sic _, _, _, _, h, _, _ => by simp [isJsonK] at h
+  | .py _, _, _, _, h, _, _ => by simp [isJsonK] at h
+  | .jsonify _, _, _, _, h, _, _ => by simp [isJsonK] at h
+  | .obj _, _, _, _, h, _, _ => by simp [isJsonK] at h
+theorem pArr_pr (o : Opts) : ∀ (xs : List Val) (lvl fuel : Nat) (rest : List Char), isJsonKList true xs = true →
+    (prArr o lvl xs).length < fuel →
+    pValue fuel (prArr o lvl xs ++ rest) = .ok (coerceKeys (.list xs)) rest
   | [], lvl, fuel, rest, _, hf => by
     obtain ⟨f, rfl⟩ : ∃ f, fuel = f + 1 := ⟨fuel - 1, by omega⟩
-    exact pValue_arr_nil f lvl rest
+    exact pValue_arr_nil f o lvl rest
   | x :: xs, lvl, fuel, rest, h, hf => by
     obtain ⟨f, rfl⟩ : ∃ f, fuel = f + 1 := ⟨fuel - 1, by omega⟩
-    simp only [isJsonList, Bool.and_eq_true] at h
+    simp only [isJsonKList, Bool.and_eq_true] at h
     simp only [prArr, List.length_cons, List.length_append] at hf
-    exact pValue_arr_cons f lvl x xs rest (pr_head (lvl + 1) x h.1)
-      (pValue_pr x (lvl + 1) f _ h.1 (by omega) (okTail_prElems lvl xs rest))
-      (pElems_pr xs lvl f rest h.2 (by omega))
-theorem pElems_pr : ∀ (xs : List Val) (lvl fuel : Nat) (rest : List Char), isJsonList false xs = true →
-    (prElems lvl xs).length < fuel → pElems fuel (prElems lvl xs ++ rest) = .ok xs rest
+    exact pValue_arr_cons f o lvl x _ xs _ rest (pr_head o (lvl + 1) x h.1)
+      (pValue_pr o x (lvl + 1) f _ h.1 (by omega) (okTail_prElems o lvl xs rest))
+      (pElems_pr o xs lvl f rest h.2 (by omega))
+theorem pElems_pr (o : Opts) : ∀ (xs : List Val) (lvl fuel : Nat) (rest : List Char), isJsonKList true xs = true →
+    (prElems o lvl xs).length < fuel → pElems fuel (prElems o lvl xs ++ rest) = .ok (coerceList xs) rest
   | [], lvl, fuel, rest, _, hf => by
     obtain ⟨f, rfl⟩ : ∃ f, fuel = f + 1 := ⟨fuel - 1, by omega⟩
-    exact pElems_nil f lvl rest
+    exact pElems_nil f o lvl rest
   | x :: xs, lvl, fuel, rest, h, hf => by
     obtain ⟨f, rfl⟩ : ∃ f, fuel = f + 1 := ⟨fuel - 1, by omega⟩
-    simp only [isJsonList, Bool.and_eq_true] at h
+    simp only [isJsonKList, Bool.and_eq_true] at h
     simp only [prElems, List.length_cons, List.length_append] at hf
-    exact pElems_cons f lvl x xs rest (pr_head (lvl + 1) x h.1)
-      (pValue_pr x (lvl + 1) f _ h.1 (by omega) (okTail_prElems lvl xs rest))
-      (pElems_pr xs lvl f rest h.2 (by omega))
-theorem pObj_pr : ∀ (kvs : List (Val × Val)) (lvl fuel : Nat) (rest : List Char),
-    isJsonPairs false kvs = true → (prObj lvl kvs).length < fuel →
-    pValue fuel (prObj lvl kvs ++ rest) = .ok (.dict kvs) rest
+    exact pElems_cons f o lvl x _ xs _ rest (pr_head o (lvl + 1) x h.1)
+      (pValue_pr o x (lvl + 1) f _ h.1 (by omega) (okTail_prElems o lvl xs rest))
+      (pElems_pr o xs lvl f rest h.2 (by omega))
+theorem pObj_pr (o : Opts) : ∀ (kvs : List (Val × Val)) (lvl fuel : Nat) (rest : List Char),
+    isJsonKPairs true kvs = true → (prObj o lvl kvs).length < fuel →
+    pValue fuel (prObj o lvl kvs ++ rest) = .ok (coerceKeys (.dict kvs)) rest
   | [], lvl, fuel, rest, _, hf => by
     obtain ⟨f, rfl⟩ : ∃ f, fuel = f + 1 := ⟨fuel - 1, by omega⟩
-    exact pValue_obj_nil f lvl rest
+    exact pValue_obj_nil f o lvl rest
   | (k, v) :: kvs, lvl, fuel, rest, h, hf => by
-    have hnd := isJsonPairs_nodup false _ h
-    simp only [isJsonPairs, Bool.and_eq_true] at h
-    obtain ⟨s, rfl⟩ := isStr_eq k h.1.1.1
-    simp only [prObj, prKey, prStr, List.length_cons, List.length_append] at hf
+    simp only [isJsonKPairs, Bool.and_eq_true] at h
+    obtain ⟨s, hk⟩ := isKey_keyStr true k h.1.1
+    simp only [prObj, prKey, hk, prStr, List.length_cons, List.length_append] at hf
     obtain ⟨f, rfl⟩ : ∃ f, fuel = f + 2 := ⟨fuel - 2, by omega⟩
-    exact pValue_obj_cons (f + 1) lvl s v kvs rest
-      (pMember_step f lvl s v kvs rest (pr_head (lvl + 1) v h.1.2)
-        (pValue_pr v (lvl + 1) f _ h.1.2 (by omega) (okTail_prMembers lvl kvs rest))
-        (pMembers_pr kvs lvl f rest h.2 (by omega)))
-      hnd
-theorem pMembers_pr : ∀ (kvs : List (Val × Val)) (lvl fuel : Nat) (rest : List Char),
-    isJsonPairs false kvs = true → (prMembers lvl kvs).length < fuel →
-    pMembers fuel (prMembers lvl kvs ++ rest) = .ok kvs rest
+    have hm := pMember_step f o lvl s v _ kvs _ rest (pr_head o (lvl + 1) v h.1.2)
+        (pValue_pr o v (lvl + 1) f _ h.1.2 (by omega) (okTail_prMembers o lvl kvs rest))
+        (pMembers_pr o kvs lvl f rest h.2 (by omega))
+    have := pValue_obj_cons (f + 1) o lvl k s v kvs _ rest hk hm
+    simpa [coerceKeys, coercePairs, hk] using this
+theorem pMembers_pr (o : Opts) : ∀ (kvs : List (Val × Val)) (lvl fuel : Nat) (rest : List Char),
+    isJsonKPairs true kvs = true → (prMembers o lvl kvs).length < fuel →
+    pMembers fuel (prMembers o lvl kvs ++ rest) = .ok (coercePairs kvs) rest
   | [], lvl, fuel, rest, _, hf => by
     obtain ⟨f, rfl⟩ : ∃ f, fuel = f + 1 := ⟨fuel - 1, by omega⟩
-    exact pMembers_nil f lvl rest
+    exact pMembers_nil f o lvl rest
   | (k, v) :: kvs, lvl, fuel, rest, h, hf => by
-    simp only [isJsonPairs, Bool.and_eq_true] at h
-    obtain ⟨s, rfl⟩ := isStr_eq k h.1.1.1
-    simp only [prMembers, prKey, prStr, List.length_cons, List.length_append] at hf
+    simp only [isJsonKPairs, Bool.and_eq_true] at h
+    obtain ⟨s, hk⟩ := isKey_keyStr true k h.1.1
+    simp only [prMembers, prKey, hk, prStr, List.length_cons, List.length_append] at hf
     obtain ⟨f, rfl⟩ : ∃ f, fuel = f + 2 := ⟨fuel - 2, by omega⟩
-    exact pMembers_cons (f + 1) lvl s v kvs rest
-      (pMember_step f lvl s v kvs rest (pr_head (lvl + 1) v h.1.2)
-        (pValue_pr v (lvl + 1) f _ h.1.2 (by omega) (okTail_prMembers lvl kvs rest))
-        (pMembers_pr kvs lvl f rest h.2 (by omega)))
+    have hm := pMember_step f o lvl s v _ kvs _ rest (pr_head o (lvl + 1) v h.1.2)
+        (pValue_pr o v (lvl + 1) f _ h.1.2 (by omega) (okTail_prMembers o lvl kvs rest))
+        (pMembers_pr o kvs lvl f rest h.2 (by omega))
+    have := pMembers_cons (f + 1) o lvl k s v kvs _ rest hk hm
+    simpa [coercePairs, hk] using this
 end
 
 /-! ### The round trip -/
 
-/-- **parse_print.** On the float-free JSON domain, parsing the printed text gives the document back
-    and consumes all of the text. -/
-theorem parse_print (d : Val) (h : isJson false d = true) : parse (print d) = .ok d [] := by
-  obtain ⟨c, r, he, hw, _⟩ := pr_head 0 d h
-  have hs : skipWs (pr 0 d) = pr 0 d := by rw [he]; simp [skipWs, hw]
-  have hv := pValue_pr d 0 ((pr 0 d).length + 1) [] h (by omega) (by simp [okTail])
+/-- **parse_print_coerce.** For every document `json.dump` accepts (floats in `fltOk`) and every
+    setting of indent / ensure_ascii: parsing the printed text consumes all of it and gives the
+    document with its keys as `json.dump` wrote them. -/
+theorem parse_print_coerce (o : Opts) (d : Val) (h : isJsonK true d = true) :
+    parse (print o d) = .ok (coerceKeys d) [] := by
+  obtain ⟨c, r, he, hw, _⟩ := pr_head o 0 d h
+  have hs : skipWs (pr o 0 d) = pr o 0 d := by rw [he]; simp [skipWs, hw]
+  have hv := pValue_pr o d 0 ((pr o 0 d).length + 1) [] h (by omega) (by simp [okTail])
   rw [List.append_nil] at hv
   simp [parse, print, hs, hv, skipWs]
+
+/-- **parse_print.** With string keys, pairwise distinct, the document itself comes back. -/
+theorem parse_print (o : Opts) (d : Val) (h : isJsonK true d = true) (hs : strKeys d = true) :
+    parse (print o d) = .ok d [] := by
+  rw [parse_print_coerce o d h, coerceKeys_id d hs]
 
 end Pypyr.Codec.Json
